@@ -4,6 +4,8 @@ use std::fmt;
 #[derive(Clone, Copy, Debug, PartialEq, Eq, Hash)]
 pub enum IntTy {
     U8,
+    /// only the `length` field of `StackVec` (rule 28); not in `ALL`: the prelude of Src.v is fixed
+    U16,
     U32,
     U64,
     U128,
@@ -16,6 +18,7 @@ impl IntTy {
     pub fn name(self) -> &'static str {
         match self {
             IntTy::U8 => "u8",
+            IntTy::U16 => "u16",
             IntTy::U32 => "u32",
             IntTy::U64 => "u64",
             IntTy::U128 => "u128",
@@ -31,6 +34,7 @@ impl IntTy {
     pub fn bits(self) -> u32 {
         match self {
             IntTy::U8 => 8,
+            IntTy::U16 => 16,
             IntTy::U32 | IntTy::I32 => 32,
             IntTy::U64 | IntTy::I64 | IntTy::Usize => 64,
             IntTy::U128 => 128,
@@ -39,6 +43,7 @@ impl IntTy {
     pub fn from_name(s: &str) -> Option<IntTy> {
         Some(match s {
             "u8" => IntTy::U8,
+            "u16" => IntTy::U16,
             "u32" => IntTy::U32,
             "u64" => IntTy::U64,
             "u128" => IntTy::U128,
@@ -85,6 +90,12 @@ pub enum Ty {
     RView,
     /// `&[u8]` (the string front-ends); Coq: `list Z`
     Bytes,
+    /// raw mode (rule 28): `StackVec` as cells + length; Coq: the record `raw` of model/RawVec.v
+    Raw,
+    /// raw mode: an `Option<()>` result as a flag (`true` = `Some(())`); Coq: `bool`
+    Flag,
+    /// raw mode: a raw pointer; a translation-time value only (no Coq type)
+    Ptr,
     /// an iterator, as the list of the items not yet consumed
     Seq(Box<Ty>),
     /// `cmp::Ordering`; Coq: `comparison`
@@ -129,6 +140,9 @@ impl Ty {
             Ty::Slice | Ty::RView | Ty::Bytes => "(list Z)".into(),
             Ty::Seq(t) => format!("(list {})", t.coq()),
             Ty::Ordering => "comparison".into(),
+            Ty::Raw => "raw".into(),
+            Ty::Flag => "bool".into(),
+            Ty::Ptr => "(* raw pointer *)".into(),
             Ty::OptUpd => "(* option of the updated arguments *)".into(),
         }
     }
